@@ -243,6 +243,7 @@ func runC01(r *Run) {
 	c01IfaceListRuns(r)
 	collidingJoins(r, "colliding-joins")
 	sameNameTypes(r, nil)
+	c01RegexpCross(r)
 	c01Sizes(r)
 	// the same logical document in several Go representations must give the same outcome
 	reps := 300
@@ -334,7 +335,7 @@ func kindMatrix() []kindSample {
 		{"SliceOfPtr", []*int{pone, nil}}, {"SliceOfPtrPtr", []**int{&pone, &nilp, nil}}, {"SliceOfIface", []interface{}{1, nil, "a", 1.5, true, []int{1}, map[string]int{}, nilp, pone}},
 		{"SliceOfIfaceNilOnly", []interface{}{nil}}, {"SliceOfIfaceFloats", []interface{}{float32(1), 2.5, float32(3)}}, {"SliceOfIfaceFloats2", []interface{}{2.5, nil, float32(1.5)}}, {"SliceOfIfaceInts", []interface{}{int8(1), int16(2), int32(3), int64(4), 5, uint8(6), uint16(7), uint32(8), uint64(9), uint(10)}}, {"SliceOfIfaceZeros", []interface{}{8080, 0, true, false, 1.5, 0.0}}, {"SliceOfIfaceObjectFirst", []interface{}{map[string]interface{}{"o": 1}, "a", 1, true, 1.5}}, {"SliceOfIfaceListFirst", []interface{}{[]int{1}, 1, "a"}}, {"SliceOfIfaceStructFirst", []interface{}{S1{}, "a", 1}},
 		{"MapNamedStrKeyIfaceVal", map[NStr]interface{}{"a": 1, "b": "a"}}, {"MapNamedStrKeyStruct", map[NStr]S1{"a": {A: 1}}}, {"Bytes", []byte("a")}, {"String", "a"}, {"PtrString", &s}, {"NamedString", NStr("a")}, {"NamedInt", NInt(1)},
-		{"Struct", S1{A: 1}}, {"PtrStruct", &S1{A: 1}}, {"StructUnexported", S2{}}, {"UnsafePointerLike", uintptr(0)}, {"JsonNumber", json.Number("1")}, {"PtrJsonNumber", func() *json.Number { j := json.Number("1"); return &j }()},
+		{"Struct", S1{A: 1}}, {"PtrStruct", &S1{A: 1}}, {"StructUnexported", S2{}}, {"UnsafePointerLike", uintptr(0)}, {"JsonNumber", json.Number("1")}, {"NilPtrJsonNumber", (*json.Number)(nil)}, {"NilPtrNamedString", (*NStr)(nil)}, {"NilPtrDur", (*Dur)(nil)}, {"PtrPtrJsonNumber", func() **json.Number { var p *json.Number; return &p }()}, {"NilPtrStruct", (*S1)(nil)}, {"NilPtrSlice", (*[]int)(nil)}, {"NilPtrMap", (*map[string]int)(nil)}, {"PtrJsonNumber", func() *json.Number { j := json.Number("1"); return &j }()},
 		{"ArrayOfIface", [2]interface{}{nil, 1}}, {"MapOfIface", map[string]interface{}{"a": nil, "b": 1}}, {"SliceOfSlices", [][]int{{1}, nil}}, {"NaN", math.NaN()},
 		{"MapPtrVal", map[string]*int{"a": nil, "b": pone}}, {"SliceOfNamedUint8", []Octet{1, 2}}, {"NamedSliceOfNamedUint8", Octets{1}}, {"NamedBytes", NBytes("a")}, {"ArrayOfBytes", [2]byte{97, 98}}, {"PtrBytes", func() *[]byte { b := []byte("a"); return &b }()},
 		{"NamedStrMap", NStrMap{"a": "b"}}, {"SliceOfNamedStr", []NStr{"a"}}, {"SliceOfNamedBool", []NBool{true}}, {"SliceOfJsonNumber", []json.Number{"1"}}, {"MapOfSlices", map[string][]string{"a": {"a"}}}, {"EmptyOctets", []Octet{}}, {"SliceOfStructs", []S1{{A: 1}}}, {"SliceOfMaps", []map[string]int{{"a": 1}, nil}},
@@ -540,6 +541,7 @@ func runC03(r *Run) {
 	c03QuantifierBodies(r, n)
 	c03Siblings(r, n)
 	c03VeryLongChain(r)
+	c03MatchPairs(r)
 }
 
 // ---------- C04 ----------
